@@ -1,7 +1,8 @@
 CONSTANTS
   Shapes = 0
   FmtChoices = 0
-  Q = 0
+  DCtx <- NoDC
+  Prec = "most_common"
   CurSeq = 0
   InvNull = "skip"
   Mut = "none"
